@@ -6,7 +6,7 @@ fn apply_exp10(base: BigInt, exponent: i32) -> Ratio<BigInt> {
     if exponent >= 0 {
         Ratio::from(base * BigInt::from(10).pow(exponent as u32))
     } else {
-        Ratio::new(base, BigInt::from(10).pow((-exponent) as u32))
+        Ratio::new(base, BigInt::from(10).pow(exponent.unsigned_abs()))
     }
 }
 
@@ -66,7 +66,10 @@ fn parse_unsigned_decimal_exactly(s: &str) -> Option<Ratio<BigInt>> {
         let base_value =
             integer_digits * BigInt::from(10).pow(decimal_places as u32) + fractional_digits;
 
-        Some(apply_exp10(base_value, exponent - (decimal_places as i32)))
+        Some(apply_exp10(
+            base_value,
+            exponent.checked_sub(decimal_places as i32)?,
+        ))
     } else {
         Some(apply_exp10(base_str.parse().ok()?, exponent))
     }
